@@ -28,16 +28,19 @@ CONSTANTS G,          \* goroutines, e.g. {1, 2, 3}
           Qs,         \* statement texts
           Plans,      \* set of admissible plans [q, tx, prep, use]
           Admins,     \* subset of {"none", "reset", "close"}
-          FixB        \* deletion by identity (fix of F7b)
+          FixB,       \* deletion by identity (fix of F7b)
+          FixC,       \* a transaction does not wait for a pool-level preparation in progress (fix of F19)
+          ConnChoices \* pool sizes to explore, e.g. {1, 3}
 
-VARIABLES plan, admin, stmts, closedMap, ent, nent, pc, held, res, closers, eclosers, pend, live, hist
-vars == <<plan, admin, stmts, closedMap, ent, nent, pc, held, res, closers, eclosers, pend, live, hist>>
-view == <<plan, admin, stmts, closedMap, ent, nent, pc, held, res, closers, eclosers, pend, live>>
+VARIABLES nconn, plan, admin, stmts, closedMap, ent, nent, pc, held, res, closers, eclosers, pend, live, hist
+vars == <<nconn, plan, admin, stmts, closedMap, ent, nent, pc, held, res, closers, eclosers, pend, live, hist>>
+view == <<nconn, plan, admin, stmts, closedMap, ent, nent, pc, held, res, closers, eclosers, pend, live>>
 
 NoEnt == 0
 Init ==
   /\ plan \in [G -> Plans]
   /\ admin \in Admins
+  /\ nconn \in ConnChoices
   /\ stmts = [q \in Qs |-> NoEnt] /\ closedMap = FALSE
   /\ ent = <<>> /\ nent = 0
   /\ pc = [g \in G |-> "start"] /\ held = [g \in G |-> NoEnt] /\ res = [g \in G |-> "none"]
@@ -47,13 +50,24 @@ Usable(e, g) == e # NoEnt /\ (~ent[e].tx \/ plan[g].tx)
 Log(g, a) == hist' = Append(hist, [g |-> g, a |-> a])
 Q(g) == plan[g].q
 
+\* connections of the pool in use: a transaction holds one from Begin to Commit/Rollback, a direct
+\* call for the time it is in flight; a pool-level Prepare takes one for the duration of DriverPrep
+Holds(g) == IF plan[g].tx THEN pc[g] \notin {"start", "done"} ELSE pc[g] = "inflight"
+Free == nconn - Cardinality({g \in DOMAIN pc : Holds(g)})
+
+Begin(g) ==
+  /\ pc[g] = "start" /\ plan[g].tx /\ Free > 0
+  /\ Log(g, "begin")
+  /\ pc' = [pc EXCEPT ![g] = "begun"]
+  /\ UNCHANGED <<nconn, plan, admin, stmts, closedMap, ent, nent, held, res, closers, eclosers, pend, live>>
+
 Lookup(g) ==
-  /\ pc[g] = "start"
+  /\ pc[g] = IF plan[g].tx THEN "begun" ELSE "start"
   /\ IF ~closedMap /\ Usable(stmts[Q(g)], g)
      THEN held' = [held EXCEPT ![g] = stmts[Q(g)]] /\ pc' = [pc EXCEPT ![g] = "hit"]
      ELSE held' = held /\ pc' = [pc EXCEPT ![g] = "miss"]
   /\ Log(g, "lookup")
-  /\ UNCHANGED <<plan, admin, stmts, closedMap, ent, nent, res, closers, eclosers, pend, live>>
+  /\ UNCHANGED <<nconn, plan, admin, stmts, closedMap, ent, nent, res, closers, eclosers, pend, live>>
 
 LockCheck(g) ==
   /\ pc[g] = "miss"
@@ -69,10 +83,11 @@ LockCheck(g) ==
           /\ stmts' = [stmts EXCEPT ![Q(g)] = nent + 1]          \* replaces a transaction-only entry
           /\ held' = [held EXCEPT ![g] = nent + 1] /\ pc' = [pc EXCEPT ![g] = "inserted"]
           /\ res' = res
-  /\ UNCHANGED <<plan, admin, closedMap, closers, eclosers, pend, live>>
+  /\ UNCHANGED <<nconn, plan, admin, closedMap, closers, eclosers, pend, live>>
 
 DriverPrep(g) ==
   /\ pc[g] = "inserted"
+  /\ (plan[g].tx \/ Free > 0)                       \* db.PrepareContext needs a pooled connection
   /\ Log(g, "driverprep")
   /\ IF plan[g].prep = "ok"
      THEN /\ ent' = [ent EXCEPT ![held[g]].open = ~plan[g].tx]    \* a statement prepared on a *sql.Tx is closed with it
@@ -80,14 +95,14 @@ DriverPrep(g) ==
           /\ live' = IF plan[g].tx \/ closedMap \/ stmts[Q(g)] # held[g] THEN live ELSE [live EXCEPT ![Q(g)] = @ + 1]
           /\ pc' = [pc EXCEPT ![g] = "prepared"]
      ELSE /\ pc' = [pc EXCEPT ![g] = "prepfail"] /\ UNCHANGED <<ent, live>>
-  /\ UNCHANGED <<plan, admin, stmts, closedMap, nent, held, res, closers, eclosers, pend>>
+  /\ UNCHANGED <<nconn, plan, admin, stmts, closedMap, nent, held, res, closers, eclosers, pend>>
 
 Publish(g) ==
   /\ pc[g] = "prepared"
   /\ Log(g, "publish")
   /\ ent' = [ent EXCEPT ![held[g]].hasStmt = TRUE, ![held[g]].prepared = TRUE]
   /\ pc' = [pc EXCEPT ![g] = "use"]
-  /\ UNCHANGED <<plan, admin, stmts, closedMap, nent, held, res, closers, eclosers, pend, live>>
+  /\ UNCHANGED <<nconn, plan, admin, stmts, closedMap, nent, held, res, closers, eclosers, pend, live>>
 
 FailDelete(g) ==
   /\ pc[g] = "prepfail"
@@ -98,7 +113,24 @@ FailDelete(g) ==
      ELSE /\ stmts' = [stmts EXCEPT ![Q(g)] = NoEnt]               \* without FixB: whatever entry is there now
           /\ live' = [live EXCEPT ![Q(g)] = 0]
   /\ res' = [res EXCEPT ![g] = "prep_err"] /\ pc' = [pc EXCEPT ![g] = "done"]
-  /\ UNCHANGED <<plan, admin, closedMap, nent, held, closers, eclosers, pend>>
+  /\ UNCHANGED <<nconn, plan, admin, closedMap, nent, held, closers, eclosers, pend>>
+
+\* (fix of F19) a transaction that finds a pool-level preparation still in progress does not wait
+\* for it -- it holds a connection the preparation may need -- but prepares on its own connection
+GoesDirect(g) == FixC /\ plan[g].tx /\ ~ent[held[g]].tx /\ ~ent[held[g]].prepared
+Direct(g) ==
+  /\ pc[g] = "hit" /\ GoesDirect(g)
+  /\ Log(g, "direct")
+  /\ pc' = [pc EXCEPT ![g] = "txdirect"] /\ held' = [held EXCEPT ![g] = NoEnt]
+  /\ UNCHANGED <<nconn, plan, admin, stmts, closedMap, ent, nent, res, closers, eclosers, pend, live>>
+
+TxPrep(g) ==
+  /\ pc[g] = "txdirect"
+  /\ Log(g, "txprep")
+  /\ IF plan[g].prep = "ok"
+     THEN pc' = [pc EXCEPT ![g] = "use"] /\ res' = res
+     ELSE pc' = [pc EXCEPT ![g] = "done"] /\ res' = [res EXCEPT ![g] = "prep_err"]
+  /\ UNCHANGED <<nconn, plan, admin, stmts, closedMap, ent, nent, held, closers, eclosers, pend, live>>
 
 Wait(g) ==
   /\ pc[g] = "hit" /\ ent[held[g]].prepared
@@ -106,7 +138,7 @@ Wait(g) ==
   /\ IF ent[held[g]].err
      THEN res' = [res EXCEPT ![g] = "prep_err"] /\ pc' = [pc EXCEPT ![g] = "done"]
      ELSE res' = res /\ pc' = [pc EXCEPT ![g] = "use"]
-  /\ UNCHANGED <<plan, admin, stmts, closedMap, ent, nent, held, closers, eclosers, pend, live>>
+  /\ UNCHANGED <<nconn, plan, admin, stmts, closedMap, ent, nent, held, closers, eclosers, pend, live>>
 
 UseBegin(g) ==
   /\ pc[g] = "use"
@@ -116,8 +148,9 @@ UseBegin(g) ==
   /\ (plan[g].tx \/ held[g] \notin pend)                 \* a direct call queues behind a pending Close
   /\ IF ~plan[g].tx /\ ~ent[held[g]].open
      THEN pc' = [pc EXCEPT ![g] = "done"] /\ res' = [res EXCEPT ![g] = "stmt_closed"]
-     ELSE pc' = [pc EXCEPT ![g] = "inflight"] /\ res' = res
-  /\ UNCHANGED <<plan, admin, stmts, closedMap, ent, nent, held, closers, eclosers, pend, live>>
+     ELSE /\ (plan[g].tx \/ Free > 0)                \* a direct call needs a pooled connection
+          /\ pc' = [pc EXCEPT ![g] = "inflight"] /\ res' = res
+  /\ UNCHANGED <<nconn, plan, admin, stmts, closedMap, ent, nent, held, closers, eclosers, pend, live>>
 
 \* the driver call is in flight between UseBegin and UseEnd; a direct (non-transaction) user holds
 \* the *sql.Stmt's close lock for that time
@@ -127,19 +160,19 @@ UseEnd(g) ==
   /\ IF plan[g].use = "badconn"
      THEN pc' = [pc EXCEPT ![g] = "badconn"] /\ res' = res
      ELSE pc' = [pc EXCEPT ![g] = "done"] /\ res' = [res EXCEPT ![g] = "ok"]
-  /\ UNCHANGED <<plan, admin, stmts, closedMap, ent, nent, held, closers, eclosers, pend, live>>
+  /\ UNCHANGED <<nconn, plan, admin, stmts, closedMap, ent, nent, held, closers, eclosers, pend, live>>
 
 InUse(e) == \E g \in DOMAIN pc : pc[g] = "inflight" /\ held[g] = e /\ ~plan[g].tx
 
 Evict(g) ==
   /\ pc[g] = "badconn"
   /\ Log(g, "evict")
-  /\ eclosers' = eclosers \cup {held[g]} /\ closers' = closers
+  /\ eclosers' = (IF held[g] = NoEnt THEN eclosers ELSE eclosers \cup {held[g]}) /\ closers' = closers
   /\ IF closedMap \/ (FixB /\ stmts[Q(g)] # held[g])
      THEN UNCHANGED <<stmts, live>>
      ELSE stmts' = [stmts EXCEPT ![Q(g)] = NoEnt] /\ live' = [live EXCEPT ![Q(g)] = 0]
   /\ res' = [res EXCEPT ![g] = "badconn"] /\ pc' = [pc EXCEPT ![g] = "done"]
-  /\ UNCHANGED <<plan, admin, closedMap, ent, nent, held, pend>>
+  /\ UNCHANGED <<nconn, plan, admin, closedMap, ent, nent, held, pend>>
 
 Admin ==
   /\ admin \in {"reset", "close"}
@@ -148,31 +181,31 @@ Admin ==
   /\ stmts' = [q \in Qs |-> NoEnt] /\ live' = [q \in Qs |-> 0]
   /\ closedMap' = (admin = "close")
   /\ admin' = "done"
-  /\ UNCHANGED <<plan, ent, nent, pc, held, res, eclosers, pend>>
+  /\ UNCHANGED <<nconn, plan, ent, nent, pc, held, res, eclosers, pend>>
 
 Closer(e) ==
   /\ e \in closers /\ ent[e].prepared
   /\ hist' = Append(hist, [g |-> 0 - e, a |-> "closer"])
   /\ closers' = closers \ {e} /\ pend' = pend \cup {e}
-  /\ UNCHANGED <<plan, admin, stmts, closedMap, ent, nent, pc, held, res, live, eclosers>>
+  /\ UNCHANGED <<nconn, plan, admin, stmts, closedMap, ent, nent, pc, held, res, live, eclosers>>
 
 EStart(e) ==
   /\ e \in eclosers
   /\ hist' = Append(hist, [g |-> 0 - e, a |-> "estart"])
   /\ eclosers' = eclosers \ {e} /\ pend' = pend \cup {e}
-  /\ UNCHANGED <<plan, admin, stmts, closedMap, ent, nent, pc, held, res, live, closers>>
+  /\ UNCHANGED <<nconn, plan, admin, stmts, closedMap, ent, nent, pc, held, res, live, closers>>
 
 CloseDone(e) ==
   /\ e \in pend /\ ~InUse(e)
   /\ hist' = Append(hist, [g |-> 0 - e, a |-> "closed"])
   /\ ent' = [ent EXCEPT ![e].open = FALSE]
   /\ pend' = pend \ {e}
-  /\ UNCHANGED <<plan, admin, stmts, closedMap, nent, pc, held, res, live, closers, eclosers>>
+  /\ UNCHANGED <<nconn, plan, admin, stmts, closedMap, nent, pc, held, res, live, closers, eclosers>>
 
 Procs == DOMAIN pc      \* = G; the trace specification replays schedules of differing goroutine counts
 AllDone == \A g \in Procs : pc[g] = "done"
 Quiescent == AllDone /\ closers = {} /\ eclosers = {} /\ pend = {} /\ admin \in {"none", "done"}
-Next == \/ \E g \in G : Lookup(g) \/ LockCheck(g) \/ DriverPrep(g) \/ Publish(g) \/ FailDelete(g) \/ Wait(g) \/ UseBegin(g) \/ UseEnd(g) \/ Evict(g)
+Next == \/ \E g \in G : Begin(g) \/ Direct(g) \/ TxPrep(g) \/ Lookup(g) \/ LockCheck(g) \/ DriverPrep(g) \/ Publish(g) \/ FailDelete(g) \/ Wait(g) \/ UseBegin(g) \/ UseEnd(g) \/ Evict(g)
         \/ Admin
         \/ \E e \in closers : Closer(e)
         \/ \E e \in eclosers : EStart(e)
